@@ -435,7 +435,7 @@ func TestC09_SingleFaults(t *testing.T) {
 
 func TestC09_RandomPlans(t *testing.T) {
 	RunProp(t, Prop[EngineCase]{
-		ID: "C09", Name: "random-plans", Quick: 160, Thor: 6000,
+		ID: "C09", Name: "random-plans", Quick: 320, Thor: 6000,
 		Gen: func(t *rapid.T) EngineCase {
 			c := EngineCase{Base: rapid.IntRange(0, 2).Draw(t, "base"), Blocks: rapid.IntRange(3, 12).Draw(t, "blocks")}
 			nf := rapid.IntRange(1, 5).Draw(t, "nfaults")
